@@ -48,7 +48,7 @@ func buildTwin(tb *Table, cfg RouterCfg, capacity int, nGlobal int, routeMW []in
 }
 
 func runC07(e *Env) {
-	e.Rule = "twin routers built from the same generated table/options/middleware, one without caching and one with capacity in {0,1,2,3,5,1000} (CachingWithNum or EnableCaching+MaxNumCaches); request histories (20..200 requests) drawn with repetition from a pool of 2..5 paths, each under 1..3 methods (so that one path is hit by GET, HEAD and wrong-method requests), incl. HEAD->GET, wrong-method (405 probing) and 404 requests; after every request Match (route, params, allowed set) and ServeHTTP (handler trace with params seen by each handler, status, headers, body) of the twins are compared. A reference LRU predicts hits and evictions; histories are extended until it predicts >= 5 hits (and >= 3 evictions when the capacity is below the pool size). Non-trivial: a history with predicted hits; distinct by (table, options, capacity, history). A third of the cached routers are built from option values that a decoy router (same paths, other handlers) was built from before and that served the request pool first; nil-ness of Params is part of the observation."
+	e.Rule = "twin routers built from the same generated table/options/middleware, one without caching and one with capacity in {0,1,2,3,5,1000} (CachingWithNum or EnableCaching+MaxNumCaches); request histories (20..200 requests) drawn with repetition from a pool of 2..5 paths, each under 1..3 methods (so that one path is hit by GET, HEAD and wrong-method requests), incl. HEAD->GET, wrong-method (405 probing) and 404 requests; after every request Match (route, params, allowed set) and ServeHTTP (handler trace with params seen by each handler, status, headers, body) of the twins are compared. A reference LRU predicts hits and evictions; histories are extended until it predicts >= 5 hits (and >= 3 evictions when the capacity is below the pool size). Non-trivial: a history with predicted hits; distinct by (table, options, capacity, history). A third of the cached routers are built from option values that a decoy router (same paths, other handlers) was built from before and that served the request pool first; nil-ness of Params is part of the observation. The Params maps handed to the handlers of the cached twin are kept and read again after the history (they must not have changed)."
 	e.Assumptions = []string{
 		"handlers treat Params as read-only; registration is finished before the first request",
 		"the uncached twin is the specification; both twins are built by the same code path with one option different",
@@ -150,6 +150,18 @@ func c07Case(t *T) {
 			_, _, _ = Serve(decoy, NewReq(q.m, q.p))
 		}
 	}
+	// parameter maps the handlers of the cached twin kept beyond their request (a logger, a background
+	// job): they belong to that request for good, whatever the cache does later
+	var kept []retainedParams
+	defer func() {
+		for _, rp := range kept {
+			t.Count("observed.retained_params_rechecked", 1)
+			if now := fmtParams(copyParams(rp.m)); now != rp.snap {
+				t.Fail("retained-params-changed-by-later-requests", "cached twin (cap %d): the Params map handed to the handler of %s was {%s}; after later requests the same map reads {%s}", capacity, rp.req, rp.snap, now)
+				return
+			}
+		}
+	}()
 	model := newLRU(capacity)
 	hits, evictions := 0, 0
 	maxLen := 200
@@ -245,6 +257,9 @@ func c07Case(t *T) {
 		}
 		if a, _ := rec2.Extra["allowed"].([]string); a != nil {
 			o2 += fmt.Sprint(a)
+		}
+		if m, _ := rec2.Extra["params_map_itself"].(rux.Params); m != nil && len(kept) < 300 {
+			kept = append(kept, retainedParams{m, fmtParams(rec2.Params), q.m + " " + q.p})
 		}
 		if o1 != o2 {
 			t.Fail("serve-outcome-differs", "step %d %s %q: ServeHTTP differs.\n without cache: %s\n with cache(cap %d): %s", step, q.m, q.p, o1, capacity, o2)
